@@ -44,7 +44,7 @@ WRITERS = os.path.join(VERIF, "coq", "writers")
 READERS = os.path.join(VERIF, "coq", "readers")
 E2E = os.path.join(VERIF, "coq", "e2e")
 E2E_THEOREMS = ["C01_written_bytes_are_read", "C01_written_channels_are_read", "C01_byte_writer_lossless", "C01_channel_writer_lossless", "C01_end_to_end_bytes", "C01_end_to_end_channels", "C01_written_samples_are_read", "C01_sample_writer_lossless", "C01_end_to_end_samples", "C01_end_to_end_encoder", "C01_end_to_end_sample_writer", "C01_written_metadata_is_read", "C01_end_to_end_nonvacuous"]
-E2E_THEOREMS_BY = {"C01": E2E_THEOREMS, "C19": ["C19_written_audio_size_bounded"], "C04": ["C04_stream_output_bounded", "C04_any_file_readers_never_panic"], "C05": ["C05_damaged_file_is_read", "C05_damaged_file_is_read_bytes_channels", "C07_decoded_file_is_read"], "C03": ["C03_valid_file_is_read", "C07_decoded_file_is_read"], "C14": ["C14_sample_writer_interrupted", "C14_byte_writer_interrupted", "C14_channel_writer_interrupted", "C14_end_to_end_interrupted", "C01_written_metadata_is_read"], "C02": ["C02_sample_writer_file_valid", "C02_byte_writer_file_valid", "C02_channel_writer_file_valid", "C01_end_to_end_samples", "C01_written_metadata_is_read"]}
+E2E_THEOREMS_BY = {"C01": E2E_THEOREMS, "C19": ["C19_written_audio_size_bounded", "C19_byte_written_audio_size_bounded", "C19_channel_written_audio_size_bounded"], "C04": ["C04_stream_output_bounded", "C04_any_file_readers_never_panic"], "C05": ["C05_damaged_file_is_read", "C05_damaged_file_is_read_bytes_channels", "C07_decoded_file_is_read"], "C03": ["C03_valid_file_is_read", "C07_decoded_file_is_read"], "C14": ["C14_sample_writer_interrupted", "C14_byte_writer_interrupted", "C14_channel_writer_interrupted", "C14_end_to_end_interrupted", "C01_written_metadata_is_read"], "C02": ["C02_sample_writer_file_valid", "C02_byte_writer_file_valid", "C02_channel_writer_file_valid", "C01_end_to_end_samples", "C01_written_metadata_is_read"]}
 E2E_REQUIRES = ["FlacWriters.Meta", "FlacWriters.Params", "FlacWriters.Finalize", "FlacWriters.Writers", "FlacE2E.Bridge", "FlacE2E.E2E", "FlacE2E.Props_E2E"]
 
 
